@@ -225,6 +225,33 @@ func Mutants(base *Schema) []Mutant {
 			m.Defs = append(m.Defs, m.Defs[di].Clone())
 			add(m, "R3", d.Name, "directive", "duplicate directive "+d.Name, both)
 		}
+		// a definition of another kind under the name of a scalar: a built-in one, or a custom scalar of this schema (written
+		// before and after the scalar's own definition)
+		if d.Kind != KDirective && d.Kind != KScalar {
+			scalars := []string{"String", "Int", "Float", "Boolean", "ID", "Time", "Int64", "Float64"}
+			for _, sd := range base.Defs {
+				if sd.Kind == KScalar && !sd.Extend {
+					scalars = append(scalars, sd.Name)
+				}
+			}
+			for _, sn := range scalars {
+				for _, front := range []bool{false, true} {
+					if front && builtinScalars[sn] {
+						continue
+					}
+					m := base.Clone()
+					nd := m.Defs[di].Clone()
+					nd.Name = sn
+					nd.Extend = false
+					if front {
+						m.Defs = append([]*Def{nd}, m.Defs...)
+					} else {
+						m.Defs = append(m.Defs, nd)
+					}
+					add(m, "R3", sn, "type:"+string(d.Kind)+":named-like-a-scalar", fmt.Sprintf("%s named like the scalar %s (before it: %v)", d.Kind, sn, front), both)
+				}
+			}
+		}
 		for _, bn := range badNames {
 			if rt(bn.routes) == "" {
 				continue
